@@ -61,18 +61,23 @@ def describe_traverse(res):
     return ("node", hs.pub(res))
 
 
-def path_info(ref, key_nibbles):
-    """hashes on the requested path with their nibble positions, and the 'near' hashes
-    (children of branch nodes on the path)"""
+def path_info(ref, key_nibbles, ref_after=None):
+    """hashes on the requested path with their nibble positions, and the 'near' hashes: the
+    children of those branch nodes on the path that the operation really has to collapse
+    (ref_after = reference trie of the contents after the operation: a branch that is still a
+    branch there needs no normalisation, so none of its other children has to be read)"""
     on = {}
     near = set()
     for prefix, node in ref.path_nodes(key_nibbles):
         if node is ref.tree or node.hashed():
             on.setdefault(node.hash(), set()).add(tuple(prefix))
-        if node.kind == "branch":
-            for c in node.children:
-                if c is not None and c.hashed():
-                    near.add(c.hash())
+        if node.kind == "branch" and ref_after is not None:
+            loc = ref_after.locate(tuple(prefix))
+            still_branch = loc[0] == "node" and loc[1].kind == "branch"
+            if not still_branch:
+                for c in node.children:
+                    if c is not None and c.hashed():
+                        near.add(c.hash())
     return on, near
 
 
@@ -144,7 +149,12 @@ def run_case(case, ctx):
                     continue
                 if start_node.node_type.name == "BLANK":
                     continue
-            on, near = path_info(ref, keyn)
+            ref_after = None
+            if kind in ("delete", "sete") and unhx(op[1]) in model:
+                m_after = dict(model)
+                m_after.pop(unhx(op[1]))
+                ref_after = RefTrie(m_after)
+            on, near = path_info(ref, keyn, ref_after)
             try:
                 expected = do_op(twin, op, start_node)
             except Exception as e:  # the twin itself fails: not this property's business
